@@ -40,7 +40,7 @@ func init() {
 			"a crash before the start call returned may lose the request (not acknowledged): such cases are tallied, not judged",
 			"rendered aggregation buckets are compared only for aggregations without a time interval (the asynchronous path does not carry the interval to the proxy)",
 		},
-		Batches: tiered(12, 96),
+		Batches: tiered(24, 144),
 		Run:     runC19,
 		Timeout: timeoutFor(10*time.Minute, 45*time.Minute),
 	})
